@@ -256,6 +256,9 @@ func patternLeaves(n, variant int) []h.B {
 			out[i] = h.B{} // all leaves empty and equal
 		default:
 			l := (i*7 + n) % 41
+			if i%5 == 3 {
+				l = 120 + (i/5+n)%16 // 120..135: around 128
+			}
 			b := make([]byte, l)
 			for j := range b {
 				b[j] = byte(i*31 + j*17 + n)
@@ -348,7 +351,10 @@ func genTree(t *rapid.T) treeCase {
 			leaves[i] = leaves[0]
 			continue
 		}
-		switch h.Pick(t, "lk", 5, 1, 1) {
+		switch h.Pick(t, "lk", 5, 1, 1, 2) {
+		case 3: // lengths around hash block sizes and small buffers
+			l := h.OneOf(t, "ll", 31, 32, 33, 55, 56, 63, 64, 65, 111, 112, 119, 120, 127, 128, 129, 130, 255, 256, 257, 1000)
+			leaves[i] = h.BytesN(t, "leafb", l)
 		case 0:
 			leaves[i] = h.Bytes(t, "leaf", 0, 40)
 		case 1:
